@@ -109,6 +109,16 @@ func crashPrepare(dir, op string) error {
 // the operation itself: runs in a child process, traced
 func crashRun(dir, op string) error {
 	runtime.LockOSThread()
+	if op == "atimes-rewrite" {
+		// no DiskStorage here: its own limiter goroutine reads the access log when it starts, at a moment of its choosing,
+		// and that open would be counted among the traced calls of one run and not of the next
+		l := caching.VerifNewLimiter(dir, 1<<40, 1700000000)
+		l.Startup()
+		l.Access(c14Key(false).FsName(), int64(len(bodyOld)), atNew)
+		l.Access("x/y/z/xyz03", 4096, 1700000201)
+		l.Flush()
+		return nil
+	}
 	s := caching.NewDiskStorage("c14", dir, 1<<40, discardLogger, time.Now)
 	switch op {
 	case "fill":
@@ -131,13 +141,6 @@ func crashRun(dir, op string) error {
 	case "changekey":
 		k2 := c14Key(true)
 		return c14Fill(s, c14Key(false), false, bodyNew, true, 5, &k2)
-	case "atimes-rewrite":
-		l := caching.VerifNewLimiter(dir, 1<<40, 1700000000)
-		l.Startup()
-		l.Access(c14Key(false).FsName(), int64(len(bodyOld)), atNew)
-		l.Access("x/y/z/xyz03", 4096, 1700000201)
-		l.Flush()
-		return nil
 	case "refill-after-evict":
 		if err := os.Remove(filepath.Join(dir, c14Key(false).FsName())); err != nil {
 			return err
@@ -272,6 +275,11 @@ func crashTrace(op string) ([][4]string, error) {
 	if b, err := cmd.CombinedOutput(); err != nil {
 		return nil, fmt.Errorf("traced run of %s failed: %v %s", op, err, b)
 	}
+	if os.Getenv("HX_DEBUG") != "" {
+		if b, err := ioutil.ReadFile(out); err == nil {
+			fmt.Fprintf(os.Stderr, "reference run of %s:\n%s\n", op, b)
+		}
+	}
 	return parseStrace(out, dir, op)
 }
 
@@ -325,6 +333,12 @@ func (c *crashCase) Run() (sx.V, error) {
 	cmd := exec.Command("strace", append(args, os.Args[0], "crashop", dir, c.Op)...)
 	cmd.Env = append(os.Environ(), "GOMAXPROCS=1", "ATIME_DISABLE=true", "ATIME_LOG_SIZE_BYTES=200")
 	cmd.Run() // exits by the injected SIGKILL
+	if os.Getenv("HX_DEBUG") != "" {
+		fmt.Fprintf(os.Stderr, "crash %s %s#%d: reference calls %v index %d\n", c.Op, c.Call, c.N, calls, c.index)
+		if b, err := ioutil.ReadFile(out); err == nil {
+			fmt.Fprintf(os.Stderr, "killed run:\n%s\n", b)
+		}
+	}
 	os.Remove(out)
 	// what a restarted rrrouter finds
 	lastUse := int64(-1) // (atimes-rewrite) the entry's last use as a restarted limiter reads it from the log; 0: none
@@ -336,9 +350,7 @@ func (c *crashCase) Run() (sx.V, error) {
 		}()
 		l := caching.VerifNewLimiter(dir, 1<<40, 1700000300)
 		l.Startup()
-		if c.Op == "atimes-rewrite" && c.Call == "" {
-			// (only for the run that is not killed: where exactly a kill on an open call lands relative to the log's
-			// writes is not pinned down well enough to say which records must be there)
+		if c.Op == "atimes-rewrite" {
 			lastUse = 0
 			if v, found := l.WithAccessTime()[c14Key(false).FsName()]; found {
 				lastUse = v[0]
